@@ -862,6 +862,8 @@ def _dict_setitem(interp, d, args):
         from .interp import _MISSING
         k = interp.dict_find_key(d, key)
         if k is _MISSING:
+            k = interp.unique_key_value(key)
+        if k is _MISSING:
             raise Unmodelled("storing under a new symbolic key in a real dict")
         key = k
     dict.__setitem__(d, key, value)
@@ -880,7 +882,14 @@ def _dict_delitem(interp, d, args):
 
 def mm_dict_setdefault(interp, self, args, kwargs):
     if isinstance(args[0], Sym):
-        raise Unmodelled("dict.setdefault with symbolic key")
+        from .interp import _MISSING
+        k = interp.dict_find_key(self, args[0])
+        if k is not _MISSING:
+            return self[k]
+        k = interp.unique_key_value(args[0])
+        if k is _MISSING:
+            raise Unmodelled("dict.setdefault with a new symbolic key")
+        return self.setdefault(k, *args[1:])
     return self.setdefault(*args)
 
 
@@ -979,6 +988,8 @@ def install(interp):
         mmods[(tp, "join")] = mm_bytes_join
     mmods[(bytearray, "extend")] = mm_bytearray_extend
     mmods[(dict, "get")] = mm_dict_get
+    mmods[(types.MappingProxyType, "get")] = mm_dict_get
+    mmods[(types.MappingProxyType, "__contains__")] = mm_dict_contains
     mmods[(dict, "pop")] = mm_dict_pop
     mmods[(dict, "__contains__")] = mm_dict_contains
     mmods[(dict, "setdefault")] = mm_dict_setdefault
